@@ -208,9 +208,9 @@ func init() {
 		Explanation: "Decides structural necessary conditions of 'tokenization progresses and tracks lines' on the five generated lexers, tm's hand-written skipAction and js's lexer_impl: PROGRESS: on the no-match path an empty token is extended by l.rewind(l.scanOffset). CURSOR: every read l.source[e] is dominated by e < len(l.source) and the scan offset advances only under l.offset < len(l.source). " +
 			"LINECOL: every store to lineOffset equals the offset of the first byte of the current line (0; 1+LastIndexByte(source[:offset],'\\n'); under l.ch=='\\n' the scan offset); functions that bump l.line keep lineOffset in step when the lexer reports columns; every cycle that advances the cursor passes the newline test; rewind subtracts newlines of source[offset:l.offset] when moving back and adds those of source[l.offset:offset] when moving forward. " +
 			"RESET(checkpoint): the backtracking checkpoint is -1 on every edge into the scanning loop, including each goto restart after a skipped token. CODEC(runemap): generated mapRune reads an entry of the compressed rune map only for r.lo <= c < r.hi, the half-open interval lex.CompressedMap fills. " +
-			"Not decided: tiling (needs table semantics), the BOM clause, js's regexp/template/JSX state machine beyond these rules. GUARD(empty-accept) as in C09 (no rule matches the empty string, so every token is non-empty).",
-		Rules: []string{"PROGRESS", "CURSOR", "LINECOL", "CODEC(runemap)", "RESET(checkpoint)", "GUARD(empty-accept)"},
-		Run:   func(c *Ctx) { rulePROGRESS(c); ruleCURSOR(c); ruleLINECOL(c); ruleRUNEMAP(c); ruleCKRESET(c); ruleEMPTYACCEPT(c) },
+			"Not decided: tiling (needs table semantics), the BOM clause, js's regexp/template/JSX state machine beyond these rules. GUARD(empty-accept) as in C09 (no rule matches the empty string, so every token is non-empty). TYPESTATE(ch-tested): on every path to an overwrite of l.ch by the inlined advance, the current character was compared since it was last set (by a store or by rewind), so a newline under the cursor is never skipped uncounted.",
+		Rules: []string{"PROGRESS", "CURSOR", "LINECOL", "CODEC(runemap)", "RESET(checkpoint)", "GUARD(empty-accept)", "TYPESTATE(ch-tested)"},
+		Run:   func(c *Ctx) { rulePROGRESS(c); ruleCURSOR(c); ruleLINECOL(c); ruleRUNEMAP(c); ruleCKRESET(c); ruleEMPTYACCEPT(c); ruleCHTESTED(c) },
 	})
 	register(&Property{
 		ID: "C11",
@@ -382,7 +382,7 @@ func init() {
 	register(&Property{
 		ID: "C08",
 		Explanation: "Decides structural necessary conditions of 'runtime lookahead decisions pick the alternative whose predicates hold': TMPL(negation): in go_parser.go.tmpl every emitted copy of a decision list applies {{if .Predicate.Negated}}!{{end}} in both the cancellable and the plain variant (template tree analysis, so un-instantiated branches are covered). SIBLING(decision-list): in the committed js and test parsers the applyRule and lookaheadRule copies of each lookahead rule have the same tests, polarities and targets. " +
-			"SHIFTWIDTH: the memoization key widens before shifting (distinct predicates at one offset never share a cached answer). AGREE(memo-key): the key identifies the lookahead nonterminal by its entry state, which minimize never merges, not by its final state, which it does. DTX(pickLookahead): for every sequence of 1..4 alternatives over {requires the predicate, requires its negation, independent} the picked alternative is the unique positive one, else the unique negated one, else none. DTX(ruleAction): a lookahead rule meeting an existing resolution rule extends that rule (planner.addRule(existing, new)); plain rules are reported as conflicts. ERRFLOW: a lookahead's error is never dropped (C29). Not decided: the ordering pass of newLookaheadRule (a DFS over runtime data pinned by lalr.TestLookahead).",
+			"SHIFTWIDTH: the memoization key widens before shifting (distinct predicates at one offset never share a cached answer). AGREE(memo-key): the key identifies the lookahead nonterminal by its entry state, which minimize never merges, not by its final state, which it does. DTX(pickLookahead): for every sequence of 1..4 alternatives over {requires the predicate, requires its negation, independent} the picked alternative is the unique positive one, else the unique negated one, else none. DTX(ruleAction): a lookahead rule meeting an existing resolution rule extends that rule (planner.addRule(existing, new)); plain rules are reported as conflicts. ERRFLOW: a lookahead's error is never dropped (C29). Not decided: the ordering pass of newLookaheadRule (a DFS over runtime data pinned by lalr.TestLookahead). TMPL(negation) also covers the TypeScript and C++ parser templates.",
 		Rules: []string{"TMPL(negation)", "SIBLING(decision-list)", "SHIFTWIDTH", "AGREE(memo-key)", "DTX(pickLookahead)", "DTX(ruleAction)", "ERRFLOW"},
 		Run: func(c *Ctx) {
 			ruleRULEACTION(c)
@@ -492,7 +492,7 @@ func init() {
 	register(&Property{
 		ID: "C26",
 		Explanation: "Decides structural necessary conditions of 'graph algorithms return correct components, closures and paths' on util/graph: MINMAX(update): every low-link update of Tarjan compares against the cell it updates. SIBLING(tarjan-update): the update after the recursive descent propagates lowLink[child]. PAIR(scc-stack): a vertex is pushed and marked onStack on entry, a component is emitted exactly under lowLink[v] == index[v], its members are cleared from onStack before the stack is cut back. WARSHALL(pivot-outermost): Matrix.Closure tests HasEdge(x, pivot) and HasEdge(pivot, y) with the pivot in the outermost loop and adds (x, y). CODEC(matrix-cell): AddEdge/HasEdge address bit i*n+e and Graph decodes (v/n, v%n). TRANSPOSE(direction): for an edge from -> to, the list of `to` is sized by counting `to` and receives `from`. SENTINEL(dfs-height): LongestPath marks in-progress vertices with -1, sets the cycle flag exactly on meeting one, and returns nil under that flag. INPLACE(write-behind-read): no in-place filter of util/graph writes ahead of its read cursor. " +
-			"Not decided: that the components, closure and paths are the right ones on every graph (reverse topological order, maximality of the path) - algorithmic, quantified over runtime graphs.",
+			"Not decided: that the components, closure and paths are the right ones on every graph (reverse topological order, maximality of the path) - algorithmic, quantified over runtime graphs. WARSHALL also requires that no return precedes the loops (all matrix sizes are computed); SENTINEL(dfs-height) also requires the dfs call to lie on every path of the loop over all vertices.",
 		Rules: []string{"MINMAX(update)", "SIBLING(tarjan-update)", "PAIR(scc-stack)", "WARSHALL(pivot-outermost)", "CODEC(matrix-cell)", "TRANSPOSE(direction)", "SENTINEL(dfs-height)"},
 		Run: func(c *Ctx) {
 			ruleMINMAX(c, "util/graph")
